@@ -281,6 +281,25 @@ def eval_formulas(base_sheets, formulas, sheet='S', first_col=27, ncols=8, overr
                 shadow = tr.executor()
                 before = [tr.get(home, get_column_letter(split_a1(addr)[0]), str(split_a1(addr)[1]), shadow) for addr, home in zip(addrs, homes)]
             ex = tr.executor()
+            if overrides and (len(formulas) + len(overrides)) % 2 == 0:
+                # every second case: the executor has a past.  The same cells are first set to other contents (a value that is equal
+                # but of another type where there is one: 1 <-> TRUE, 0 <-> FALSE) and everything is evaluated once; what is reported
+                # afterwards must be a function of the overrides that hold then, not of what was computed before
+                def decoy(v):
+                    if isinstance(v, bool):
+                        return int(v)
+                    if isinstance(v, int) and v in (0, 1):
+                        return bool(v)
+                    if isinstance(v, (int, float)):
+                        return v + 1
+                    if isinstance(v, str):
+                        return v + 'z'
+                    return 5
+                o_pre = outcome(lambda: ex.set_cells([Cell(t, c, r, decoy(v)) for t, c, r, v in overrides]))
+                if o_pre[0] == 'value':
+                    for addr, home in zip(addrs, homes):
+                        c, r = split_a1(addr)
+                        tr.get(home, get_column_letter(c), str(r), ex)
             if overrides:
                 o_set = outcome(lambda: ex.set_cells([Cell(t, c, r, dec(v)) for t, c, r, v in overrides]))
                 if o_set[0] != 'value':
